@@ -113,6 +113,24 @@ def scoping_programs(tier, rnd):
     add("declblock-in-method", prog([disp(call("F")), ex(num(0))], funcs=[func("F", [], [declblock(("P1", num(1), False), ("P2", num(2), True)), ex(asg(var("P1"), num(3))),
                                                                                        ex(asg(var("P2"), num(4))), ret(num(0))], [catch("@exc", [ret(var("P1"))])])]))
     add("program-input-const", prog([disp(var("IN1"), var("IN2")), ex(asg(var("IN2"), num(9))), mark("dead")], inputs=["IN1", "IN2"]))
+    # calls into ANOTHER MODULE FILE from inside open blocks of the caller - returning, faulting, throwing, called with a wrong
+    # argument count - the failure handled by a method of the caller's own file: afterwards every name of every open block of the
+    # caller (and its input) is what it was, a name of an inner block is still a redeclaration there, and the blocks close as usual
+    from excfam import MODNAMES
+    outcomes = {"returns": [ret(bin_("add", var("X"), num(1)))], "faults": [decl("Q", bin_("div", num(1), bin_("sub", var("X"), var("X")))), ret(num(0))],
+                "throws": [throw("@exc", s("far"))], "nested-far-call-faults": [ret(call("far2", var("X")))]}
+    for oc, fbody in outcomes.items():
+        for k in kinds:
+            for arity_ok in ((True, False) if oc == "returns" else (True,)):
+                far = func("far", ["X"], json.loads(json.dumps(fbody)), mod=1)
+                far2 = func("far2", ["X"], [decl("Z", idx(lst(num(1)), num(5))), ret(num(0))], mod=1)
+                safe = func("safe", ["Y"], [decl("S1", num(8)), ret(call("far", var("Y")) if arity_ok else call("far", var("Y"), num(2)))], [catch("@exc", [disp(s("safe-h"), var("Y")), ret(num(-1))])])
+                inner = [decl("L3", num(3)), decl("R", call("safe", var("P"))), disp(var("L1"), var("L2"), var("L3"), var("P"), var("R")),
+                         decl("R2", call("safe", num(4))), disp(var("L3"), var("R2")), ex(asg(var("L1"), bin_("add", var("L1"), num(10))))]
+                callerf = func("caller", ["P"], [decl("L1", bin_("add", var("P"), num(1)))] + blk("if", [decl("L2", num(2))] + blk(k, inner) + [disp(var("L1"), var("L2"))]) + [disp(var("L1"), var("P")), ret(var("L1"))])
+                main = [decl("M", num(5))] + blk(k, [decl("N", num(6)), disp(call("caller", var("M"))), disp(var("M"), var("N"))]) + [disp(var("M")), disp(call("caller", num(7))), mark("end"), ex(var("L1"))]
+                pr = prog(main, funcs=[callerf, safe, far, far2], mods=[dict(name=MODNAMES[0], imports=[])], imports=[1])
+                add("cross-module-call-%s-in-%s%s" % (oc, k, "" if arity_ok else "-wrong-arity"), pr)
     return P
 
 
@@ -178,7 +196,7 @@ def run(ctx):
                     "length 9 with a VIEW for the invariants/action properties; (1c) %d random histories of length %d RECORDED from the real VM and "
                     "validated by TLC against Trace_ZnVM (reply, scope depth and live-symbol count bound at every step; accepted=%s); "
                     "(2) %d scoping programs (shadowing in every block kind, nesting, use-before/after, redeclare, constants, inputs, 得到, "
-                    "predefined names, recursion, exception exits) through the ZnEval machine" % (nh, ln, accepted, len(progs)),
+                    "predefined names, recursion, exception exits; calls into another module file from inside open blocks - returning / faulting / throwing / wrong argument count, handled by a method of the caller's file - after which every open block of the caller still has its names) through the ZnEval machine" % (nh, ln, accepted, len(progs)),
                trace_lines=nlines, trace_accepted=accepted, programs_stats=stats)
     return cov, ["values in substrate histories are the step numbers (every write distinguishable)",
                  "predefined names are represented by one global 'g' at the substrate level and by the real predefined names in programs"]
